@@ -673,9 +673,9 @@ class C06(Check):
         "(top-down); for other TRACK wells only 'unchanged when no new cell was connected'",
         "re, connection length, D-factor, CTF kind are not asserted",
     ]
-    EXAMPLES = {"quick": 330, "thorough": 5000}
-    MIN_EVALS = {"quick": 1500, "thorough": 12000}
-    TIME_CAP = {"quick": 170, "thorough": 1100}
+    EXAMPLES = {"quick": 330, "thorough": 4000}
+    MIN_EVALS = {"quick": 1500, "thorough": 10000}
+    TIME_CAP = {"quick": 150, "thorough": 800}
     EXHAUSTIVE = False
     LEVEL_TEXT = ("Generated-input search against two independent Python models: the Peaceman relation/defaults "
                   "computed from the deck's own numbers with my unit table (per record, all 16 default/explicit "
@@ -884,6 +884,8 @@ class C06(Check):
                                     key = KNOWN_PI
                                 V("A: entering the computed value explicitly changes the stored %s" % name,
                                   dict(ctxd, twin=t, rel=d, tol=tol, twin_record=p["twin"]), key)
+        if any(v.get("key") == KNOWN_PI for v in viols):
+            ctx.label("A:known r0/truncated-pi residual observed")
         return self.pick(viols)
 
     def check_b(self, case, ctx, M):
